@@ -50,6 +50,9 @@ let () =
        | "lines" ->
          let s = str () in
          print_endline (String.concat "|" (List.map pstr (split_keep s)))
+       | "linesdrop" ->
+         let s = str () in
+         print_endline (String.concat "|" (List.map pstr (split_plain s)))
        | "endpos" ->
          let l = nextn () in let c = nextn () in let s = str () in
          let (el, ec) = end_pos s l c in
